@@ -300,6 +300,17 @@ static void app_prologue(Exec &x,cppcms::http::context &c)
 			snprintf(n,sizeof(n),"X-Verif-%d",i); snprintf(v,sizeof(v),"hv%d",i);
 			if(i%2==0) c.response().set_header(n,v); else c.response().add_header(n,v);
 		}
+		if(x.nh>=2) {
+			// repeated names: a header that was set and then added to (in either spelling) is carried with all its values,
+			// add_header twice gives two lines, set_header twice keeps the last value only
+			c.response().set_header("X-Verif-Multi","m0");
+			c.response().add_header("x-verif-multi","m1");
+			c.response().add_header("X-Verif-Multi","m2");
+			c.response().add_header("X-Verif-Dup","d0");
+			c.response().add_header("X-Verif-Dup","d1");
+			c.response().set_header("X-Verif-Rep","r0");
+			c.response().set_header("x-verif-rep","r1");
+		}
 		for(int i=0;i<x.nc;i++) {
 			char n[32],v[32];
 			snprintf(n,sizeof(n),"ck%d",i); snprintf(v,sizeof(v),"cv%d",i);
@@ -755,6 +766,10 @@ static void derive(Exec &x)
 		for(int i=0;i<x.nc;i++) { char b[64]; snprintf(b,sizeof(b),"Set-Cookie: ck%d=cv%d\r\n",i,i); x.raw_header += b; }
 	}
 	for(int i=0;i<x.nh;i++) { char n[32],v[32]; snprintf(n,sizeof(n),"x-verif-%d",i); snprintf(v,sizeof(v),"hv%d",i); x.set.push_back(std::make_pair(std::string(n),std::string(v))); }
+	if(x.nh>=2 && !x.raw) {
+		static char const *rep[][2]={{"x-verif-multi","m0"},{"x-verif-multi","m1"},{"x-verif-multi","m2"},{"x-verif-dup","d0"},{"x-verif-dup","d1"},{"x-verif-rep","r1"}};
+		for(int i=0;i<6;i++) x.set.push_back(std::make_pair(std::string(rep[i][0]),std::string(rep[i][1])));
+	}
 	for(int i=0;i<x.nc;i++) { char v[32]; snprintf(v,sizeof(v),"ck%d=cv%d",i,i); x.set.push_back(std::make_pair(std::string("set-cookie"),std::string(v))); }
 	// total body = bytes the program writes beyond the raw header
 	long tot = 0; bool fin = false;
